@@ -21,6 +21,7 @@ type Clause struct {
 type LoopSpec struct {
 	Invs      []*Clause
 	Preserves []*Clause // checked on every back edge (may refer to the header state with athdr), not assumed
+	Exits     []*Clause // checked on every edge that leaves the loop (normal end, break, return from inside), not assumed
 	Decreases []*Clause // lexicographic tuple
 	Uses      []*Clause
 }
@@ -70,7 +71,7 @@ type Lemma struct {
 	Line   int
 }
 
-var reClause = regexp.MustCompile(`^(requires|ensures|assumes|invariant|preserves|decreases|assigns|inline|use|props|trust|check|loop|ghost|abstract|bounded|results|pure)\b(\[[^\]]*\])?\s*(\{[^}]*\})?\s*(.*)$`)
+var reClause = regexp.MustCompile(`^(requires|ensures|assumes|invariant|preserves|exit|decreases|assigns|inline|use|props|trust|check|loop|ghost|abstract|bounded|results|pure)\b(\[[^\]]*\])?\s*(\{[^}]*\})?\s*(.*)$`)
 
 func (p *Program) parseContracts(path string, overlay []byte) error {
 	var data []byte
@@ -90,7 +91,7 @@ func (p *Program) parseContracts(path string, overlay []byte) error {
 		ln   int
 	}
 	var lines []lline
-	reStart := regexp.MustCompile(`^(func|interface|spec|lemma|axiom|autolemma|autoaxiom|foldaxiom|comparable|appendlemma|ghostmap|guarded|lockinv|fieldinv|eleminv|typeinv|requires|ensures|assumes|invariant|preserves|decreases|assigns|inline|use|props|trust|check|loop|ghost|abstract|bounded|results|pure)\b`)
+	reStart := regexp.MustCompile(`^(func|interface|spec|lemma|axiom|autolemma|autoaxiom|foldaxiom|comparable|appendlemma|ghostmap|guarded|lockinv|fieldinv|eleminv|typeinv|requires|ensures|assumes|invariant|preserves|exit|decreases|assigns|inline|use|props|trust|check|loop|ghost|abstract|bounded|results|pure)\b`)
 	for ln, raw := range rawLines {
 		t := strings.TrimSpace(raw)
 		if !strings.HasPrefix(t, "//@") {
@@ -393,6 +394,8 @@ func (p *Program) parseContracts(path string, overlay []byte) error {
 					cur.Loops[n].Invs = append(cur.Loops[n].Invs, c2)
 				case "preserves":
 					cur.Loops[n].Preserves = append(cur.Loops[n].Preserves, c2)
+				case "exit":
+					cur.Loops[n].Exits = append(cur.Loops[n].Exits, c2)
 				case "decreases":
 					cur.Loops[n].Decreases = append(cur.Loops[n].Decreases, c2)
 				case "use":
@@ -413,6 +416,12 @@ func (p *Program) parseContracts(path string, overlay []byte) error {
 				return fail("preserves outside loop")
 			}
 			cur.Loops[curLoop].Preserves = append(cur.Loops[curLoop].Preserves, cl)
+			last = cl
+		case "exit":
+			if curLoop < 0 {
+				return fail("exit outside loop")
+			}
+			cur.Loops[curLoop].Exits = append(cur.Loops[curLoop].Exits, cl)
 			last = cl
 		case "decreases":
 			if curLoop >= 0 {
@@ -466,7 +475,7 @@ func (p *Program) parseContracts(path string, overlay []byte) error {
 			cur.Ghost = append(cur.Ghost, cl)
 			last = cl
 		}
-		if kw != "loop" && kw != "invariant" && kw != "decreases" && kw != "use" {
+		if kw != "loop" && kw != "invariant" && kw != "decreases" && kw != "use" && kw != "exit" && kw != "preserves" {
 			if kw == "requires" || kw == "ensures" || kw == "ghost" {
 				// function-level clauses reset the loop context
 				curLoop = -1
@@ -499,6 +508,7 @@ func (p *Program) parseContracts(path string, overlay []byte) error {
 		for _, l := range c.Loops {
 			cls = append(cls, l.Invs...)
 			cls = append(cls, l.Preserves...)
+			cls = append(cls, l.Exits...)
 			cls = append(cls, l.Decreases...)
 			cls = append(cls, l.Uses...)
 		}
@@ -675,7 +685,7 @@ func (p *Program) filterForInterference() {
 	do := func(c *Contract) {
 		c.Requires, c.Ensures, c.Assumes = filter(c.Requires), filter(c.Ensures), filter(c.Assumes)
 		for _, l := range c.Loops {
-			l.Invs, l.Preserves = filter(l.Invs), filter(l.Preserves)
+			l.Invs, l.Preserves, l.Exits = filter(l.Invs), filter(l.Preserves), filter(l.Exits)
 		}
 	}
 	for _, c := range p.contracts {
